@@ -102,7 +102,7 @@ var npStrCands = []string{"moniker,username", "moniker", "username", "Moniker,us
 
 func runC19(r *Rec) {
 	defer func() { c19Genesis(r, NewWorld(WorldOpts{NAcc: 2, NVal: 1, SudoAccs: []int{0}})) }()
-	w := NewWorld(WorldOpts{NAcc: 6, NVal: 1, SudoAccs: []int{0}})
+	w := NewWorld(WorldOpts{NAcc: 9, NVal: 1, SudoAccs: []int{0}})
 	k := w.app.CustomGovKeeper
 	ctx := w.KeeperCtx()
 	ids := npIds()
@@ -378,6 +378,28 @@ func runC19(r *Rec) {
 			tc{2, func(p *govtypes.NetworkProperties) { p.MinTxFee = 81 }, false, "role-whitelisted-but-individually-blacklisted"},
 			tc{3, func(p *govtypes.NetworkProperties) { p.MinTxFee = 82 }, false, "individually-whitelisted-but-role-blacklisted"},
 			tc{4, func(p *govtypes.NetworkProperties) { p.MinTxFee = 83 }, true, "role-whitelisted"},
+		)
+		// a role-held permission ends with the role: accounts 5..7 hold the granting role next to a neutral one, in either
+		// order of assignment; 5 and 6 lose the granting role again (the neutral one stays), 7 loses the neutral one
+		rn := k.CreateRole(ctx, "np-neutral", "grants nothing")
+		k.AssignRoleToActor(ctx, actor(5), uint64(rw))
+		k.AssignRoleToActor(ctx, actor(5), uint64(rn))
+		k.AssignRoleToActor(ctx, actor(6), uint64(rn))
+		k.AssignRoleToActor(ctx, actor(6), uint64(rw))
+		k.AssignRoleToActor(ctx, actor(7), uint64(rw))
+		k.AssignRoleToActor(ctx, actor(7), uint64(rn))
+		k.UnassignRoleFromActor(ctx, actor(5), uint64(rw))
+		k.UnassignRoleFromActor(ctx, actor(6), uint64(rw))
+		k.UnassignRoleFromActor(ctx, actor(7), uint64(rn))
+		for i, want := range map[int][]uint64{5: {uint64(rn)}, 6: {uint64(rn)}, 7: {uint64(rw)}} {
+			if got := actor(i).Roles; fmt.Sprint(got) != fmt.Sprint(want) {
+				r.Fail("C19/msg/role-set-after-unassign", fmt.Sprintf("account %d holds roles %v after the unassignment, expected %v", i, got, want), nil)
+			}
+		}
+		cases = append(cases,
+			tc{5, func(p *govtypes.NetworkProperties) { p.MinTxFee = 84 }, false, "granting-role-unassigned-first-of-two"},
+			tc{6, func(p *govtypes.NetworkProperties) { p.MinTxFee = 85 }, false, "granting-role-unassigned-last-of-two"},
+			tc{7, func(p *govtypes.NetworkProperties) { p.MinTxFee = 86 }, true, "other-role-unassigned"},
 		)
 	}
 	for _, c := range cases {
